@@ -933,7 +933,7 @@ fn split_text(s: &str) -> Vec<String> {
         }
 
         is_ident_prev = is_ident;
-        is_ident = c.is_ascii_alphanumeric() | (c == '_');
+        is_ident = c.is_ascii_alphanumeric() | (c == '_') | (c == '$');
 
         if c == '\n' && is_comment {
             is_comment = false;
